@@ -129,6 +129,7 @@ type GCase struct {
 	Chain     uint64     `json:"chain"`
 	DB        []RefTable `json:"db"`
 	Blocks    []Block    `json:"blocks"`
+	Abi       bool       `json:"abi,omitempty"`       // case file carries the full log data; the model decodes it
 	Validated bool       `json:"validated,omitempty"` // built through config.ValidateFix
 	Path      string     `json:"path"`                // "direct" | "json" | "pushdown"
 	Expect    string     `json:"expect,omitempty"`    // "", "err", "any": what the oracle expects of the outcome class
